@@ -92,10 +92,13 @@ class RefB:
         return out
 
 
-def run_script(L, T, ty, name, steps):
+def run_script(L, T, ty, name, steps, via='ctor'):
     """-> ('err', name) | ('ok', p)"""
     I = L.I
-    b = b_new(I, T, mk_type(I, T, ty), name)
+    if via == 'new':
+        r = p_new(I, T, mk_type(I, T, ty), name)
+        return ('err', err_name(r.fields[0])) if r.variant == 'Err' else ('ok', r.fields[0])
+    b = b_new(I, T, mk_type(I, T, ty), name, via)
     for m, *args in steps:
         a2 = [mk_type(I, T, args[0])] if m == 'with_package_type' else args
         b = b_call(I, T, b, m, *a2)
@@ -119,16 +122,16 @@ def materialise(L, ty, name, steps):
     return mat(ty), mat(name), [(s[0],) + tuple(mat(a) for a in s[1:]) for s in steps]
 
 
-def h_seq(L, T, ty, name, steps):
+def h_seq(L, T, ty, name, steps, via='ctor'):
     I = L.I
     tyb, nm, st = materialise(L, ty, name, steps)
-    req = {'op': 'build_typed' if T == 'Purl' else 'build', 'T': KINDS[T][1], 'type': SymStr(tyb), 'name': SymStr(nm), 'steps': [[m] + [SymStr(a) for a in args] for m, *args in st]}
+    req = {'op': 'build_typed' if T == 'Purl' else 'build', 'T': KINDS[T][1], 'type': SymStr(tyb), 'name': SymStr(nm), 'via': via, 'steps': [[m] + [SymStr(a) for a in args] for m, *args in st]}
     L.expect_native(req, {})
     R = RefB(tyb, nm)
     for m, *args in st:
         R.apply(L, m, args)
     try:
-        kind, res = run_script(L, T, tyb, nm, st)
+        kind, res = run_script(L, T, tyb, nm, st, via)
     except Panic as e:
         L.fail('panic: %s' % e.msg)
         return 'panic'
@@ -254,9 +257,12 @@ def queries(tier):
     def H(n, nm='h'):
         return ('hole', nm, n)
 
-    def addseq(T, ty, name, steps):
-        qs.append(Query('%s %s' % (T, show_steps(ty, name, steps)), h_seq, {'T': T, 'ty': ty, 'name': name, 'steps': steps},
-                        bound='builder script %s with every valid-UTF-8 string of the stated size in each hole' % show_steps(ty, name, steps)))
+    def addseq(T, ty, name, steps, via='ctor'):
+        txt = show_steps(ty, name, steps)
+        if via != 'ctor':
+            txt = txt.replace('new(', 'GenericPurl::%s(' % via, 1)
+        qs.append(Query('%s %s' % (T, txt), h_seq, {'T': T, 'ty': ty, 'name': name, 'steps': steps, 'via': via},
+                        bound='builder script %s with every valid-UTF-8 string of the stated size in each hole' % txt))
     SET = ['with_namespace', 'with_name', 'with_version', 'with_subpath']
     for T, ty in (('String', 't'), ('Purl', 'npm'), ('Purl', 'maven'), ('Purl', 'pypi')):
         deep = T == 'String'
@@ -268,6 +274,9 @@ def queries(tier):
                     addseq(T, ty, 'n', [('with_namespace', 'ns'), ('with_version', '1'), ('with_qualifier', 'k', 'v'), ('with_subpath', 's'), (meth, H(min(n, 3)))])
         for n in lens(m):
             addseq(T, ty, H(n), [('with_namespace', 'g')] if ty == 'maven' else [])
+            # the other entry points: GenericPurl::new (no further calls) and GenericPurl::builder
+            addseq(T, ty, H(n), [], via='new')
+            addseq(T, ty, H(n), [('with_namespace', 'g'), ('with_version', H(1, 'v'))], via='builder')
         for n in lens(3 if deep else 2):
             addseq(T, ty, 'n', [('with_namespace', 'g'), ('with_qualifier', 'k', H(n))])
             if n:
@@ -280,6 +289,12 @@ def queries(tier):
         addseq(T, ty, 'n', [('with_namespace', 'g'), ('with_qualifier', H(1, 'a'), H(1, 'v')), ('with_qualifier', H(1, 'b'), H(1, 'w'))])
         addseq(T, ty, 'n', [('with_namespace', 'g'), ('with_qualifier', H(1, 'a'), 'v'), ('without_qualifier', H(1, 'b'))])
         addseq(T, ty, 'n', [('with_namespace', 'g'), ('with_qualifier', H(2, 'a'), 'v'), ('without_qualifiers',)])
+        if deep:
+            # many qualifiers, then unsetting / overriding one by a free key
+            MANY = [('with_namespace', 'g')] + [('with_qualifier', k, v) for k, v in (('c', '1'), ('a', '2'), ('e', '3'), ('b', '4'), ('d', '5'))]
+            addseq(T, ty, 'n', MANY + [('without_qualifier', H(1, 'a'))])
+            addseq(T, ty, 'n', MANY + [('without_qualifier', H(1, 'a')), ('with_qualifier', H(1, 'b'), 'x')])
+            addseq(T, ty, 'n', MANY + [('with_qualifier', H(1, 'a'), H(1, 'v'))])
         if th:
             for m1 in SET:
                 for m2 in SET:
